@@ -519,4 +519,44 @@ theorem no_credentials_before_host_key (a : Args) (s : SSHArgs) (khLoads keyLoad
     rw [this, hs]
     cases v <;> simp [hostKeyAccepted] at hv ⊢
 
+/-! ## connections in sequence: no history -/
+
+/-- `standard_no_history`: in any run of connections opened one after the other by one process,
+the outcome of connection `n` is `standardConn` of connection `n`'s own inputs (its configuration,
+what its known-hosts path holds at that time, what the server accepts) … -/
+theorem standard_no_history (h : List Conn) (n : Nat) :
+    (standardHistory h)[n]? = (h[n]?).map standardConn := by
+  simp [standardHistory]
+
+/-- … hence two runs that agree on connection `n` agree on its outcome, whatever came before or
+comes after (other files, the same path with other content, other drivers) -/
+theorem standard_no_history_indep (h h' : List Conn) (n : Nat) (hn : h[n]? = h'[n]?) :
+    (standardHistory h)[n]? = (standardHistory h')[n]? := by
+  rw [standard_no_history, standard_no_history, hn]
+
+/-- the property's first sentence for every connection of a run: established under strict
+checking only if the configured file, as it is when that connection is opened, loads and holds
+the server's key -/
+theorem standard_history_strict_sound (h : List Conn) (n : Nat) (c : Conn) (u : Bytes) (m : AuthMethod)
+    (hc : h[n]? = some c) (he : (standardHistory h)[n]? = some (.established u m))
+    (hs : c.s.strictKey = true) :
+    c.s.knownHostsFile ≠ [] ∧ c.kh = .holds .matches := by
+  rw [standard_no_history, hc] at he
+  simp only [Option.map_some, Option.some.injEq] at he
+  obtain ⟨h1, h2, h3⟩ := standard_strict_sound c.a c.s c.kh.loads c.keyLoads c.kh.verdict c.accepts u m he hs
+  refine ⟨h1, ?_⟩
+  cases hk : c.kh with
+  | missing => simp [hk, KhContent.loads] at h2
+  | malformed => simp [hk, KhContent.loads] at h2
+  | holds v => simp [hk, KhContent.verdict] at h3; rw [h3]
+
+example : standardHistory
+    [ { a := { host := b!"r1", port := 22, password := b!"pw", timeoutNs := 0 },
+        s := { strictKey := true, knownHostsFile := b!"/k" }, kh := .holds .matches, keyLoads := true,
+        accepts := fun _ => true },
+      { a := { host := b!"r1", port := 22, password := b!"pw", timeoutNs := 0 },
+        s := { strictKey := true, knownHostsFile := b!"/k" }, kh := .holds .mismatch, keyLoads := true,
+        accepts := fun _ => true } ]
+    = [.established [] (.password (b!"pw")), .hostKeyRejected] := by decide
+
 end Scrapli.SshCfg.C14
